@@ -286,6 +286,7 @@ func init() {
 	registerStrings()
 	registerMisc()
 	registerProto()
+	registerCalendar()
 }
 
 // ---------- time ----------
